@@ -459,7 +459,8 @@ class Region(object):
             sky = np.array(list(zip(ra, dec)))
         except TypeError:
             sky = np.array([(ra, dec)])
-        return sky
+        # an empty list of positions is still an (N, 2) array
+        return sky.reshape((-1, 2))
 
     @staticmethod
     def sky2ang(sky):
